@@ -72,7 +72,7 @@ def replay(scn):
     op = i["op"]
     viol, calls = [], 0
     d = i["d"] - 1
-    for kind, off in (("i", 0), ("f", 0), ("s", 0), ("i", -4)):
+    for kind, off in (("i", 0), ("f", 0), ("s", 0), ("i", -4), ("u", 0), ("f", 2000000)):
         codec = A.LabelCodec(offset=off)        # the shifted variant has labels 0 and negative labels
         kinds = [kind] * len(a_abs["dims"])
         for form in (0, 1, 2):
